@@ -1191,7 +1191,9 @@ def judgeC05 (ops : List OpRec) : List String :=
             | ReqBody.produce _ _ ts => ts.flatMap fun (tp : Bytes × List (Int × Bytes)) => tp.2.map fun (ps : Int × Bytes) =>
                 s!"{toHexTok x.1}|{toHexTok tp.1}|{ps.1}|{(openSet ps.2).map fun (m : Msg) => kvStr m.key m.value}"
             | _ => []
-          let s := if sortBy (· < ·) want == sortBy (· < ·) got then s
+          -- a call cut short on the wire has sent part of its requests: what it did send must be right
+          let cut := op.evs.any (fun e => match e with | .io _ _ => true | .connect _ ok => !ok | _ => false)
+          let s := if sortBy (· < ·) want == sortBy (· < ·) got || (cut && got.all (fun x => want.contains x)) then s
             else viol s "C05-records" op s!"requests carry {sortBy (· < ·) got}, expected (each record once, at its partition's leader, order kept) {sortBy (· < ·) want}"
           -- one request per involved broker, with the configured acks and time-out
           let hosts : List Bytes := reqs.map fun (x : Bytes × Request) => x.1
@@ -1901,7 +1903,8 @@ def normaliseProducer (ops : List OpRec) : List OpRec :=
   r.1
 
 def judge (prop : String) (lines : List String) : List String :=
-  let ops0 := (parseOps lines).flatMap normaliseOp
+  -- (an operation on an object that does not exist - its creation failed - did nothing and says nothing)
+  let ops0 := ((parseOps lines).flatMap normaliseOp).filter fun (o : OpRec) => o.result != "noobj"
   -- the properties about the producer's own decisions and settings look at the producer's operations as they are
   let ops := if prop ∈ ["C12", "C16", "C13", "C18"] then ops0 else normaliseProducer ops0
   match prop with
@@ -1928,7 +1931,9 @@ def judge (prop : String) (lines : List String) : List String :=
   | "C01" => judgeC01 ops
   | "C08" => judgeC08 ops
   | "C17" => judgeC17 ops
-  | "C15" => judgeC15 ops
+  -- "its whole request was handed to the stream": what a call hands over is one request frame, nothing before or behind it
+  | "C15" => judgeC15 ops ++ (((judgeC09 ops).filter fun (l : String) => (l.splitOn "C09-frame-unparseable").length > 1).map
+      fun (l : String) => l.replace "C09-frame-unparseable" "C15-frame-is-not-one-request")
   | "C18" => judgeC18 ops
   | "C13" => judgeC13 ops
   | _ => []
